@@ -166,7 +166,8 @@ static void run_zoo(Rng &r)
             bool self_on = !c.by_self() || l.on;
             for(auto &n : c.leaf.order) {
                 if(!self_on && n != "on") continue;     // a disabled object still presents its enabling toggle
-                if(n == "arr" || n == "farr") for(int i = 0; i < 8; ++i) e.insert(pre + n + std::to_string(i));
+                if(n == "inner") e.insert(pre + "inner/w");
+                else if(n == "arr" || n == "farr") for(int i = 0; i < 8; ++i) e.insert(pre + n + std::to_string(i));
                 else e.insert(pre + c.leaf.pname(n));
             }
             if(c.by_self() && self_on) e.insert(pre + "self");
@@ -231,7 +232,8 @@ static void run_zoo(Rng &r)
                 bool self_on = !c.by_self() || lf.on;
                 for(auto &n : c.leaf.order) {
                     if(!self_on && n != "on") continue;
-                    if(n == "arr" || n == "farr") for(int i = 0; i < 8; ++i) e2.insert(pre + n + std::to_string(i));
+                    if(n == "inner") e2.insert(pre + "inner/w");
+                    else if(n == "arr" || n == "farr") for(int i = 0; i < 8; ++i) e2.insert(pre + n + std::to_string(i));
                     else e2.insert(pre + c.leaf.pname(n));
                 }
                 if(c.by_self() && self_on) e2.insert(pre + "self");
@@ -252,6 +254,7 @@ static void run_zoo(Rng &r)
             void *want = nullptr;
             if(x.addr.compare(0, 10, "/mid/leaf/") == 0) want = &root.mid.leaf; else if(x.addr.compare(0, 9, "/mid/many") == 0) want = &root.mid.many[x.addr[9] - '0'];
             else if(x.addr.compare(0, 9, "/mid/ptr/") == 0) want = root.mid.ptr; else if(x.addr.compare(0, 5, "/top/") == 0) want = &root.top; else if(x.addr.compare(0, 5, "/mid/") == 0) want = &root.mid; else want = &root;
+            if(want && x.addr.find("/inner/") != std::string::npos) want = &((Leaf *)want)->inner;
             if(x.runtime != want) { fail("walker_runtime_object", {fmt("placement_%d", c.enable_placement)}, sdesc + " address=" + x.addr, fmt("%p", x.runtime), fmt("%p (the object the address belongs to)", want)); break; }
         }
         free(buf);
